@@ -160,7 +160,7 @@ def tieRen (k : Nat) (p : Str) : Str := if k ≥ 10 then p ++ ('.' :: (toString 
 def tieMarker (mode : Nat) : Str := "/* pp ".toList ++ (toString mode).toList ++ " */\n".toList
 
 def initFS : List (Str × File) → FS
-  | [] => fun _ => none
+  | [] => ⟨fun _ => none⟩
   | (p, f) :: rest => (initFS rest).set p (some f)
 
 def fppAnswer (inplace : Bool) (defMode : Nat) (all : Bool) (failOn : List Str) (py : Str) (objs : List Obj)
@@ -169,7 +169,7 @@ def fppAnswer (inplace : Bool) (defMode : Nat) (all : Bool) (failOn : List Str) 
   let w := FilePP.runWorld (FilePP.stubProg tieMarker all failOn) tieRen defMode sem objs jobs (initFS init)
   let log := w.log.reverse
   let fs := query.map fun q =>
-    match w.fs q with
+    match w.fs.get q with
     | some f => s!"{encodeStr q}:{encodeStr f.bytes}:{f.mode}"
     | none => s!"{encodeStr q}:none"
   s!"err={showErr w.err}|log=" ++ (if log.isEmpty then "-" else ";".intercalate (log.map showEvent)) ++
